@@ -77,6 +77,7 @@ GREETINGS = [
     b"OK MPD 0.23.5\n", b"OK MPD 0.21.11\n", b"OK MPD x\n", b"OK MPD 0.24 beta \xc3\xa9\n", b"OK MPD  \n", b"OK MPD 0.23.5\r\n", b"OK MPD " + b"9" * 5000 + b"\n",
     b"foobar\n", b"OK MPD \n", b"OK MPD 0.2\xff3\n", b"ok mpd 0.23.5\n", b"OK  MPD 0.23.5\n", b"\n", b"ACK [5@0] {} x\n", b"OK\n", b"OK MPD 0.23\xc3\n", b"OK MPD\n", b"OK MPD 0\x00.1\n",
     b"OK MPD 0.23.5", b"OK MP", b"O", b"", b"foo", b"OK MPD \xc3", b"OK MPD " + b"1" * 9000, b"OK MPD 0.23.5\nOK\n",
+    b"OK MPD 0.24~\xce\xb21\n", b"OK MPD 0.24.4-\xc3\xa9\xe2\x86\x92\xf0\x9f\x8e\xb5~git\n", b"OK MPD \xf0\x9f\x8e\xb5\n", b"OK MPD 0.24 \xf0\x9f\x8e",
 ]
 
 
